@@ -1,4 +1,5 @@
 import VerylModel.Driver.Store
+import VerylModel.Driver.Pretty
 import VerylModel.Driver.IdCodec
 import VerylModel.Driver.Register
 import VerylModel.Driver.TokenPos
@@ -11,12 +12,14 @@ import VerylModel.Driver.Words
 def main (args : List String) : IO UInt32 := do
   match args with
   | ["store"] => VerylModel.Driver.Store.run; return 0
+  | ["pretty"] => VerylModel.Driver.Pretty.run; return 0
   | ["fragment"] => VerylModel.Driver.IdCodec.run; return 0
   | ["order"] => VerylModel.Driver.Register.run; return 0
   | ["tokens"] => VerylModel.Driver.TokenPos.run; return 0
   | ["migrate"] => VerylModel.Driver.Migrator.run; return 0
   | ["incr"] => VerylModel.Driver.Incr.run; return 0
   | ["svlv"] => VerylModel.Driver.Svlv.run; return 0
+  | ["cosim"] => VerylModel.Driver.Svlv.run; return 0
   | ["random"] => VerylModel.Driver.Random.run; return 0
   | ["words"] => VerylModel.Driver.Words.run; return 0
   | _ => IO.eprintln s!"vmodel: unknown domain {args}"; return 2
